@@ -150,3 +150,59 @@ Definition ctz32 (x : N) : N := ctz_fuel 32 x.
 Fixpoint popcount_fuel (fuel : nat) (x : N) : N :=
   match fuel with O => 0 | S f => (if N.testbit x 0 then 1 else 0) + popcount_fuel f (N.shiftr x 1) end.
 Definition popcount32 (x : N) : N := popcount_fuel 32 x.
+
+(** masked byte move with zeroing (the register part of _mm512_maskz_loadu_epi8) *)
+Definition maskz_bytes (k : N) (v : list N) : list N :=
+  map2 (fun i x => if N.testbit k (N.of_nat i) then x else 0) (seq 0 (length v)) v.
+
+(* ------------------------------------------------------------------ evaluation by number (for the hardware comparison)
+   [intr_eval id a b]: a and b are 64-byte register images; the result is the byte image the C driver prints
+   (16/32/64 bytes for a register, 8 bytes little-endian for a scalar).  The numbering is the order of the X/Y/Z/S
+   lines of run_intrinsic in harness/h_simd.c; ocaml/run_simd.ml maps names to numbers. *)
+Definition x16 (v : list N) := firstn 16 v.
+Definition y32 (v : list N) := firstn 32 v.
+Definition sc (x : N) : list N := le_bytes 8 x.
+Definition intr_eval (id : N) (a b : list N) : list N :=
+  match id with
+  | 0 => mm_shuffle_epi8 (x16 a) (x16 b)
+  | 1 => mm_unpacklo_epi8 (x16 a) (x16 b) | 2 => mm_unpackhi_epi8 (x16 a) (x16 b)
+  | 3 => mm_unpacklo_epi16 (x16 a) (x16 b) | 4 => mm_unpackhi_epi16 (x16 a) (x16 b)
+  | 5 => mm_unpackhi_epi64 (x16 a) (x16 b)
+  | 6 => mm_and (x16 a) (x16 b) | 7 => mm_min_epu8 (x16 a) (x16 b)
+  | 8 => add_lanes 2 (x16 a) (x16 b) | 9 => add_lanes 4 (x16 a) (x16 b) | 10 => add_lanes 8 (x16 a) (x16 b)
+  | 11 => cmpeq_lanes 1 (x16 a) (x16 b) | 12 => cmpeq_lanes 2 (x16 a) (x16 b) | 13 => cmpeq_lanes 4 (x16 a) (x16 b)
+  | 14 => mm_cmplt_epi16 (x16 a) (x16 b) | 15 => mullo_lanes 2 (x16 a) (x16 b) | 16 => mm_packs_epi16 (x16 a) (x16 b)
+  | 17 => mm_slli_si128 (x16 a) 4 | 18 => mm_slli_si128 (x16 a) 8
+  | 19 => mm_srli_si128 (x16 a) 2 | 20 => mm_srli_si128 (x16 a) 4 | 21 => mm_srli_si128 (x16 a) 8
+  | 22 => mm_slli_epi32 (x16 a) 7 | 23 => mm_srli_epi16 (x16 a) 4
+  | 24 => set1_epi8 16 (nth 0 a 0) | 25 => mm_set1_epi16 (le_num (firstn 2 a))
+  | 26 => mm_set1_epi32 (le_num (firstn 4 a)) | 27 => mm_set1_epi64x (le_num (firstn 8 a))
+  | 28 => mm_cvtsi32_si128 a | 29 => mm_cvtsi64_si128 a | 30 => mm_loadl_epi64 a
+  | 31 => sc (movemask_epi8 (x16 a)) | 32 => sc (le_num (mm_cvtsi128_si32 a))
+  | 33 => sc (le_num (mm_extract_epi32 a 3)) | 34 => sc (le_num (mm_extract_epi16 a 0))
+  | 35 => sc (mm_crc32_u8 (le_num (firstn 4 a)) (nth 0 b 0)) | 36 => sc (mm_crc32_u16 (le_num (firstn 4 a)) (le_num (firstn 2 b)))
+  | 37 => sc (mm_crc32_u32 (le_num (firstn 4 a)) (le_num (firstn 4 b))) | 38 => sc (mm_crc32_u64 (le_num (firstn 4 a)) (le_num (firstn 8 b)))
+  | 39 => mm256_shuffle_epi8 (y32 a) (y32 b) | 40 => mm_and (y32 a) (y32 b) | 41 => mm_min_epu8 (y32 a) (y32 b)
+  | 42 => add_lanes 4 (y32 a) (y32 b) | 43 => add_lanes 8 (y32 a) (y32 b) | 44 => cmpeq_lanes 4 (y32 a) (y32 b)
+  | 45 => mm256_slli_si256 (y32 a) 4 | 46 => mm256_slli_si256 (y32 a) 8
+  | 47 => set1_epi8 32 (nth 0 a 0) | 48 => mm256_set1_epi32 (le_num (firstn 4 a)) | 49 => mm256_set1_epi64x (le_num (firstn 8 a))
+  | 50 => mm256_cvtepu8_epi32 a | 51 => mm256_cvtepu16_epi32 a
+  | 52 => mm256_inserti128_si256_1 (y32 a) (x16 b)
+  | 53 => mm256_extracti128_si256 a 0 | 54 => mm256_extracti128_si256 a 1
+  | 55 => sc (movemask_epi8 (y32 a))
+  | 56 => sc (le_num (mm256_extract_epi32 a 0)) | 57 => sc (le_num (mm256_extract_epi32 a 4)) | 58 => sc (le_num (mm256_extract_epi32 a 7))
+  | 59 => mm512_shuffle_epi8 a b | 60 => mm512_permutexvar_epi32 a b
+  | 61 => add_lanes 4 a b | 62 => add_lanes 8 a b
+  | 63 => set1_epi8 64 (nth 0 a 0) | 64 => mm512_set1_epi32 (le_num (firstn 4 a)) | 65 => mm512_set1_epi64 (le_num (firstn 8 a))
+  | 66 => mm512_cvtepu8_epi32 a | 67 => mm512_cvtepu16_epi32 a
+  | 68 => mm512_maskz_set1_epi8 (le_num (firstn 8 a)) 1
+  | 69 => mm512_maskz_alignr_epi32 0xFFFE a (zeros 64) 15 | 70 => mm512_maskz_alignr_epi32 0xFFFC a (zeros 64) 14
+  | 71 => mm512_maskz_alignr_epi32 0xFFF0 a (zeros 64) 12 | 72 => mm512_maskz_alignr_epi32 0xFF00 a (zeros 64) 8
+  | 73 => mm512_maskz_alignr_epi64 0xFE a (zeros 64) 7 | 74 => mm512_maskz_alignr_epi64 0xFC a (zeros 64) 6
+  | 75 => mm512_maskz_alignr_epi64 0xF0 a (zeros 64) 4
+  | 76 => maskz_bytes (le_num (firstn 8 b)) a
+  | 77 => mm512_castsi512_si128 a
+  | 78 => mm512_extracti32x4_epi32 a 1 | 79 => mm512_extracti32x4_epi32 a 2 | 80 => mm512_extracti32x4_epi32 a 3
+  | 81 => sc (mm512_test_epi8_mask a b) | 82 => sc (mm512_cmpeq_epi32_mask a b)
+  | _ => []
+  end.
